@@ -80,6 +80,12 @@ func CreateAbsoluteURL(url string, base *nurl.URL) string {
 		return url
 	}
 
+	// In HTML the leading and trailing white space of an URL attribute
+	// is not part of the URL.
+	if trimmed := strings.Trim(url, " \t\n\f\r"); trimmed != "" {
+		url = trimmed
+	}
+
 	// If it is hash tag, return as it is
 	if strings.HasPrefix(url, "#") {
 		return url
